@@ -70,6 +70,14 @@ CHECKS['C20'] = dict(
          "Not decided: parseSemVer as a string function, network/filesystem/clock behaviour, behaviour when checksums.txt has no entry.",
     tech="static analysis: finite abstract evaluation (exhaustive over a quotient domain) of extracted syntax trees + guard dominance + exception-escape analysis")
 
+CHECKS['C19'] = dict(
+    text="Loader typestate and ordering rules decided on all CFG paths of loadModule/load and both resolvers: canonicalise → cycle test "
+         "(Semantic throw) → cache test → stack push → parse → (recursive load; package comparison that can only throw on mismatch)* → "
+         "cache insert and load-order push strictly after the import loop → pop; merge in load order; identical documented root order "
+         "in both resolvers with first hit; wildcard listings filtered and sorted; main-count guards.",
+    note=TB + "Not decided: which concrete file wins in a concrete directory tree (symlinks, canonicalisation), i.e. filesystem behaviour.",
+    tech="static analysis: typestate ordering by must-precede/must-follow on the CFG, sibling agreement of the two resolvers' extracted root sequences")
+
 NOT_YET = "check not yet built in this round (framework under construction; see DESIGN.md §4 for the planned static rules)"
 
 
